@@ -48,6 +48,13 @@ def cases(tier, seed):
                 for t in ('0', '1e-12', '1e-4', '0.05', '0.9/L'):
                     for r in range(reps):
                         yield dict(kind='from_vector', n=n, d=d, vstyle=vs, tol=t, seed=int(rng.integers(1 << 31)))
+    # the tolerance rule itself on exactly representable spectra: ties between tol and a cumulative weight, exact zeros
+    # (decided in exact rational arithmetic; shared with the C12 stand-in)
+    from . import r_C12
+    for i in range(len(r_C12.DYADIC)):
+        for r in range(2 if tier == 'quick' else 10):
+            yield dict(kind='rbi', spectrum=i, shift=int(rng.integers(-3, 4)), seed=int(rng.integers(1 << 31)))
+            yield dict(kind='tie', spectrum=i, shift=int(rng.integers(-3, 4)), seed=int(rng.integers(1 << 31)))
 
 
 # ------------------------------------------------------------------------------------------------------------------
@@ -152,6 +159,9 @@ def run_case(c):
 
     def fail(clause, detail):
         fails.append(dict(clause=clause, detail=detail, signature=f'{fname}:{clause}'))
+    if c['kind'] in ('rbi', 'tie'):
+        from . import r_C12
+        return r_C12.run_case(c)
     if c['kind'] == 'from_vector':
         return run_from_vector(c, rng, fail, fails, key)
     L, d, mode = c['L'], c['d'], c['mode']
